@@ -27,5 +27,8 @@ for h in hs:
         if new != h.get('est_s'):
             n += 1
             h['est_s'] = new
+        if new > 120 and h.get('tier', 'quick') == 'quick' and h.get('expected') != 'fails':
+            h['tier'] = 'thorough'
+            print('moved to the thorough tier:', h['name'], new, 's')
 json.dump(hs, open(path, 'w'), indent=1)
 print('measured', len(meas), 'updated', n, 'slowest', sorted(meas.items(), key=lambda kv: -kv[1])[:12])
